@@ -114,7 +114,7 @@ def run_history(ops):
         def __call__(self, m):
             tapes[self.i].append(dict(m))
 
-    one_shot = set(i for i in never_removed if i % 5 == 3)  # destinations that unregister themselves while handling their first message
+    one_shot = set(i for i in never_removed if i % 3 == 1)  # destinations that unregister themselves while handling their first message
 
     def make(i):
         tapes[i] = []
